@@ -136,7 +136,7 @@ def run(res):
     from concurrent.futures import ThreadPoolExecutor
     def one(ops0):
         ops = instrument(ops0)
-        cb, paths, tie, san, crash, fault, err = hist.run_plain(exe, ops, lean=True, timeout=600, want_err=True)
+        cb, paths, tie, san, crash, fault, err = hist.run_plain(exe, ops, lean=True, timeout=150, want_err=True)
         bad = [] if (san or crash) else judge_with_cwd(ops, cb, paths, hist.dostype_of(ops0), hist.nblocks_of(ops0))
         # second sentence of the property, observed on the real code by the harness at every single block write
         bo = vlib.bmorder_report(err)
